@@ -190,7 +190,9 @@ class Inliner:
         for x in ast.walk(fn):
             if x is not fn and isinstance(x, (ast.FunctionDef, ast.AsyncFunctionDef, ast.ClassDef)):
                 return False
-            if isinstance(x, (ast.Yield, ast.YieldFrom, ast.Await, ast.Global, ast.Nonlocal, ast.Try, ast.With)):
+            if isinstance(x, (ast.Yield, ast.YieldFrom, ast.Await, ast.Global, ast.Nonlocal)):
+                return False
+            if isinstance(x, (ast.Try, ast.With)) and any(isinstance(y, ast.Return) for y in ast.walk(x)):
                 return False
         for d in a.defaults:
             if not isinstance(d, ast.Constant):
@@ -433,7 +435,8 @@ class Inliner:
             fns = [b for b in (cls.body if cls is not None else self.tree.body) if isinstance(b, ast.FunctionDef)]
             for fn in fns:
                 selfname = None
-                if cls is not None and self.kind_of(fn) == "method" and fn.args.args:
+                decos = [ast.unparse(d) for d in fn.decorator_list]
+                if cls is not None and "staticmethod" not in decos and "classmethod" not in decos and fn.args.args:
                     selfname = fn.args.args[0].arg
                 try:
                     fn.body = self.process_block(fn.body, cls, selfname, {}, fn)
